@@ -88,6 +88,20 @@ func init() {
 		"fmt.Sprintf": extFmtSprintf,
 		"fmt.Errorf":  extFmtErrorf,
 		"fmt.Sprint":  extFmtSprint,
+		"fmt.Fprintf":  extFmtFprintf,
+		"fmt.Fprint":   extFmtFprint,
+		"fmt.Fprintln": extFmtFprint,
+		"fmt.Sprintln": func(fr *frame, a []value) value {
+			parts := a[0].([]value)
+			var out []value
+			for i, x := range parts {
+				if i > 0 {
+					out = append(out, byte(' '))
+				}
+				out = append(out, fr.displayVals(x)...)
+			}
+			return valsToStr(append(out, byte('\n')))
+		},
 		"fmt.Println": func(fr *frame, a []value) value { return tuple{0, iface{}} },
 		"fmt.Printf":  func(fr *frame, a []value) value { return tuple{0, iface{}} },
 		"fmt.Print":   func(fr *frame, a []value) value { return tuple{0, iface{}} },
@@ -404,12 +418,27 @@ func valsToStr(bs []value) value {
 func (fr *frame) sprintf(format value, args []value) value {
 	f, ok := format.(string)
 	if !ok {
-		// a format with symbolic bytes and no operands is returned unchanged
-		// (a '%' among the symbolic bytes would make the real Sprintf emit
-		// %!verb(MISSING); formatting is never the subject of a property and
-		// harnesses that read the result assume the bytes are not '%')
-		if _, isSym := format.(symstr); isSym && len(args) == 0 {
-			return format
+		// a format with symbolic bytes: every byte that may be '%' forks. On
+		// the branch where some byte is '%' the real formatter would emit
+		// %!verb(MISSING)/consume operands; this is not modelled: the result is
+		// opaque there (whatever depends on it fails in the engine and is then
+		// judged by the native replay). Without any '%' and without operands
+		// the format is returned unchanged.
+		if ss, isSym := format.(symstr); isSym {
+			pct := false
+			for _, b := range ss.b {
+				if c, conc := b.(uint8); conc {
+					pct = pct || c == '%'
+					continue
+				}
+				if fr.p.truth(fr.p.byteEq(b, byte('%'))) {
+					pct = true
+				}
+			}
+			if !pct && len(args) == 0 {
+				return format
+			}
+			return symstr{[]value{fr.p.newVar("fmt_opaque", 8)}}
 		}
 		return "<fmt>"
 	}
@@ -462,6 +491,38 @@ func (fr *frame) sprintf(format value, args []value) value {
 
 func extFmtSprintf(fr *frame, a []value) value {
 	return fr.sprintf(a[0], a[1].([]value))
+}
+
+// writeTo calls w.Write(bytes of s) on an io.Writer value and returns
+// (n, err) as the Fprint family does.
+func (fr *frame) writeTo(w value, s value) value {
+	wi, ok := w.(iface)
+	if !ok || wi.t == nil {
+		fr.rtPanic("invalid memory address or nil pointer dereference")
+	}
+	ms := fr.i.prog.MethodSets.MethodSet(wi.t)
+	for i := 0; i < ms.Len(); i++ {
+		if ms.At(i).Obj().Name() == "Write" {
+			fn := fr.i.prog.MethodValue(ms.At(i))
+			return fr.call(fr.curPos(), fn, []value{wi.v, strBytes(s)}, nil)
+		}
+	}
+	panic(unsupported("fmt.Fprint*: writer without Write"))
+}
+
+func extFmtFprintf(fr *frame, a []value) value {
+	return fr.writeTo(a[0], fr.sprintf(a[1], a[2].([]value)))
+}
+
+func extFmtFprint(fr *frame, a []value) value {
+	var out []value
+	for _, x := range a[1].([]value) {
+		out = append(out, fr.displayVals(x)...)
+	}
+	if fr.fn.Name() == "Fprintln" {
+		out = append(out, byte('\n'))
+	}
+	return fr.writeTo(a[0], valsToStr(out))
 }
 
 func extFmtSprint(fr *frame, a []value) value {
